@@ -326,7 +326,8 @@ def run_profile(profile, seed, tier, opts=None, flavor="dev-hooks", modes=7, sca
     t = TIERS[tier]
     ngr = max(4, int(t["grammars"] * scale * opts.get("grammar_scale", 1.0)))
     if profile == "memofam":
-        ngr = 5
+        import families
+        ngr = families.NFAM
     build.debug_table()
     build.tool_cgdrv()
     # ---- phase A
